@@ -3,11 +3,61 @@
 // lock/unlock, realize(stage), lazy queries) up to a depth are replayed on a State of a real system;
 // after every history the full observation vector at Stage::Acceleration must equal, bitwise, that of
 // (a) a fresh default State given the same values through the same setters and (b) a copy of the history's State.
+// Variants 0-2: the original Pin/Slider/Pin system (69/71-operation alphabet).  Variants 3-9 (added after the coverage audit): one small
+// system per element family the property quantifies over, each with its own sub-alphabet (only the operations of the
+// elements it contains): 3 Euler/quaternion option (Ball+Free), 4 z / event witnesses / Thermostat / custom element,
+// 5 CablePath+CableSpring, 6 constraints with state-resident parameters, 7 prescribed motions, 8 contact constraints,
+// 9 ExponentialSpringForce / CompliantContactSubsystem / LinearBushing frames / DiscreteForces / Force::disable.
 #include "Simbody.h"
 #include "verif.h"
 #include <dirent.h>
+#include <fcntl.h>
+#include <unistd.h>
 
 using namespace SimTK;
+
+// continuous values of the added variants come from fixed tables scaled by a factor selected by VERIF_SEED
+static double gSeedScale = 1.0;
+static double SV(double x) { return x * gSeedScale; }
+static const int kNumVariants = 10;
+static const int kQuickDepthAdded[kNumVariants] = {0, 0, 0, 3, 3, 3, 3, 3, 3, 3};     // plain depth of the quick tier for variants 3-9
+static const char* kVariantTag[kNumVariants] = {"", "", "", "euler", "zev", "cable", "cons", "motion", "contact", "misc"};
+
+// ---------------------------------------------------------------- custom element of variant 4: allocates z, a state-resident
+// gain, and one event witness per stage (Time, Position, Velocity, Dynamics, Acceleration); its force depends on z and time
+class ZForce : public Force::Custom::Implementation {
+public:
+    ZForce(const GeneralForceSubsystem& fs, const SimbodyMatterSubsystem& m, MobilizedBodyIndex b1, MobilizedBodyIndex b2) : fs(fs), m(m), b1(b1), b2(b2) {}
+    const GeneralForceSubsystem& fs; const SimbodyMatterSubsystem& m; MobilizedBodyIndex b1, b2;
+    mutable ZIndex z0; mutable DiscreteVariableIndex gainIx;
+    mutable EventTriggerByStageIndex tT, tP, tV, tD, tA;
+    Real gain(const State& s) const { return Value<Real>::downcast(fs.getDiscreteVariable(s, gainIx)).get(); }
+    void realizeTopology(State& s) const override {
+        z0 = fs.allocateZ(s, Vector(Vec2(0.1, -0.2)));
+        gainIx = fs.allocateDiscreteVariable(s, Stage::Dynamics, new Value<Real>(2.0));
+        tT = fs.allocateEventTriggersByStage(s, Stage::Time, 1);
+        tP = fs.allocateEventTriggersByStage(s, Stage::Position, 1);
+        tV = fs.allocateEventTriggersByStage(s, Stage::Velocity, 1);
+        tD = fs.allocateEventTriggersByStage(s, Stage::Dynamics, 1);
+        tA = fs.allocateEventTriggersByStage(s, Stage::Acceleration, 1);
+    }
+    void calcForce(const State& s, Vector_<SpatialVec>& bodyForces, Vector_<Vec3>&, Vector& mobilityForces) const override {
+        const Vector& z = fs.getZ(s);
+        m.getMobilizedBody(b1).applyOneMobilityForce(s, 0, gain(s) * z[z0] * std::cos(s.getTime()), mobilityForces);
+        m.getMobilizedBody(b2).applyBodyForce(s, SpatialVec(Vec3(0, 0, z[z0 + 1]), Vec3(z[z0] * z[z0 + 1], 0, 0)), bodyForces);
+    }
+    Real calcPotentialEnergy(const State& s) const override { const Vector& z = fs.getZ(s); return 0.5 * z[z0] * z[z0]; }
+    void realizeTime(const State& s) const override { fs.updEventTriggersByStage(s, Stage::Time)[tT] = s.getTime() - 0.5; }
+    void realizePosition(const State& s) const override { fs.updEventTriggersByStage(s, Stage::Position)[tP] = m.getMobilizedBody(b2).getOneQ(s, 0) - 0.2 + 0.1 * s.getTime(); }
+    void realizeVelocity(const State& s) const override { fs.updEventTriggersByStage(s, Stage::Velocity)[tV] = m.getMobilizedBody(b1).getOneU(s, 0) * m.getMobilizedBody(b2).getOneQ(s, 0) + 0.3 * s.getTime(); }      // z may only be read from Dynamics on
+    void realizeDynamics(const State& s) const override { fs.updEventTriggersByStage(s, Stage::Dynamics)[tD] = gain(s) * fs.getZ(s)[z0] - 1 + fs.getZ(s)[z0 + 1] * m.getMobilizedBody(b2).getOneU(s, 0); }
+    void realizeAcceleration(const State& s) const override {
+        const Vector& z = fs.getZ(s); Vector& zd = fs.updZDot(s);
+        zd[z0] = -z[z0] + m.getMobilizedBody(b1).getOneQ(s, 0) * m.getMobilizedBody(b2).getOneU(s, 0);
+        zd[z0 + 1] = gain(s) * z[z0] - s.getTime();
+        fs.updEventTriggersByStage(s, Stage::Acceleration)[tA] = m.getUDot(s)[0] + zd[z0];
+    }
+};
 
 // ---------------------------------------------------------------- fixture
 struct Fixture {
@@ -17,8 +67,20 @@ struct Fixture {
     Force::MobilityConstantForce constF; Force::MobilityLinearStop stop; Force::LinearBushing bushing;
     Force::DiscreteForces discrete; Force::MobilityDiscreteForce mobDiscrete; Force::TwoPointLinearSpring tpSpring;
     Constraint::ConstantSpeed cspeed; Constraint::Rod rod;
+    // ---- members of the added variants (empty handles elsewhere)
+    MobilizedBody::Ball ball; MobilizedBody::Free freeB, freeC; MobilizedBody::FunctionBased fbased;
+    Force::Thermostat thermo; Force::Custom custom; ZForce* zforce = nullptr;
+    std::unique_ptr<CableTrackerSubsystem> tracker; std::unique_ptr<CablePath> path; CableSpring cspring;
+    Constraint::Ball cball; Constraint::NoSlip1D noslip; Constraint::ConstantCoordinate ccoord; Constraint::ConstantAcceleration cacc;
+    Motion::Steady steady; Motion::Sinusoid sinus; Motion::Steady steadyFree;
+    Constraint::SphereOnPlaneContact sop; Constraint::SphereOnSphereContact sos; Constraint::LineOnLineContact lol;
+    std::unique_ptr<ContactTrackerSubsystem> ctracker; std::unique_ptr<CompliantContactSubsystem> ccs;
+    std::unique_ptr<ExponentialSpringForce> expspring;
     int variant; State base;
+    static Body::Rigid stdBody() { return Body::Rigid(MassProperties(1.5, Vec3(0.1, -0.2, 0.05), Inertia(0.4, 0.5, 0.6, 0.01, -0.02, 0.03).shiftFromMassCenter(Vec3(0.1, -0.2, 0.05), 1.5))); }
+    void buildAdded();
     explicit Fixture(int variant) : matter(sys), forces(sys), variant(variant) {
+        if (variant >= 3) { buildAdded(); sys.realizeTopology(); base = sys.getDefaultState(); sys.realizeModel(base); return; }
         Body::Rigid body(MassProperties(1.5, Vec3(0.1, -0.2, 0.05), Inertia(0.4, 0.5, 0.6, 0.01, -0.02, 0.03).shiftFromMassCenter(Vec3(0.1, -0.2, 0.05), 1.5)));
         b1 = MobilizedBody::Pin(matter.Ground(), Transform(Vec3(0, 0, 0)), body, Transform(Vec3(0, 0.7, 0)));
         b2 = MobilizedBody::Slider(b1, Transform(Rotation(0.3, ZAxis), Vec3(0.2, 0, 0)), body, Transform(Vec3(0, 0.4, 0)));
@@ -41,9 +103,303 @@ struct Fixture {
     }
 };
 
+// The added fixtures. Each is as small as its element family allows; constants that are not varied by operations are fixed.
+void Fixture::buildAdded() {
+    Body::Rigid body = stdBody();
+    const Transform Xb1P(Vec3(0, 0, 0)), Xb1B(Vec3(0, 0.7, 0)), Xb2P(Rotation(0.3, ZAxis), Vec3(0.2, 0, 0)), Xb2B(Vec3(0, 0.4, 0));
+    switch (variant) {
+    case 3: {   // Euler-angle / quaternion modelling option: Ball (4/3 q), Pin child, Free (7/6 q); bushing reads both orientations; Rod gives qerr
+        ball = MobilizedBody::Ball(matter.Ground(), Xb1P, body, Xb1B);
+        b1 = MobilizedBody::Pin(ball, Xb2P, body, Xb2B);
+        freeB = MobilizedBody::Free(matter.Ground(), Transform(Vec3(1, 0, 0)), body, Transform(Vec3(0, 0.5, 0)));
+        gravity = Force::Gravity(forces, matter, UnitVec3(0, -1, 0), 9.8);
+        spring = Force::MobilityLinearSpring(forces, b1, MobilizerQIndex(0), 10, 0.1);
+        bushing = Force::LinearBushing(forces, ball, Transform(Vec3(0.1, 0, 0)), freeB, Transform(Vec3(0, 0.1, 0)), Vec6(5, 6, 7, 50, 60, 70), Vec6(0.5, 0.6, 0.7, 1, 2, 3));
+        rod = Constraint::Rod(b1, Vec3(0.3, 0, 0), freeB, Vec3(0, 0.2, 0), 1.1);
+        break; }
+    case 4: {   // z, event witnesses, Thermostat, custom element, LinearBushing dissipated-energy z
+        b1 = MobilizedBody::Pin(matter.Ground(), Xb1P, body, Xb1B);
+        b2 = MobilizedBody::Slider(b1, Xb2P, body, Xb2B);
+        gravity = Force::Gravity(forces, matter, UnitVec3(0, -1, 0), 9.8);
+        thermo = Force::Thermostat(forces, matter, 0.5, 3.0, 0.4, 0);
+        thermo.setDefaultNumChains(2);
+        zforce = new ZForce(forces, matter, b1.getMobilizedBodyIndex(), b2.getMobilizedBodyIndex());
+        custom = Force::Custom(forces, zforce);
+        bushing = Force::LinearBushing(forces, b2, Transform(Vec3(0.1, 0, 0)), matter.Ground(), Transform(Vec3(0.3, 0.9, 0)), Vec6(5, 6, 7, 50, 60, 70), Vec6(0.5, 0.6, 0.7, 1, 2, 3));
+        cspeed = Constraint::ConstantSpeed(b2, MobilizerUIndex(0), 0.4);
+        break; }
+    case 5: {   // CablePath (origin on Ground, via point on b1, termination on b2) + CableSpring.  No wrapping surface: its path solver is documented to
+                // continue from the previous solution (kept in the cache), so its results are history dependent by design (tried: differences up to 0.15)
+        b1 = MobilizedBody::Pin(matter.Ground(), Xb1P, body, Xb1B);
+        b2 = MobilizedBody::Slider(b1, Xb2P, body, Xb2B);
+        gravity = Force::Gravity(forces, matter, UnitVec3(0, -1, 0), 9.8);
+        tracker.reset(new CableTrackerSubsystem(sys));
+        path.reset(new CablePath(*tracker, matter.Ground(), Vec3(-1, 0.5, 0), b2, Vec3(0.1, 0, 0.05)));
+        CableObstacle::ViaPoint(*path, b1, Vec3(0.2, -0.3, 0.1));
+        cspring = CableSpring(forces, *path, 50, 1.5, 0.1);
+        break; }
+    case 6: {   // constraints whose parameters live in the State
+        b1 = MobilizedBody::Pin(matter.Ground(), Xb1P, body, Xb1B);
+        b2 = MobilizedBody::Slider(b1, Xb2P, body, Xb2B);
+        b3 = MobilizedBody::Pin(matter.Ground(), Transform(Vec3(1, 0, 0)), body, Transform(Vec3(0, 0.5, 0)));
+        freeB = MobilizedBody::Free(matter.Ground(), Transform(Vec3(0.5, 1, 0.3)), body, Transform(Vec3(0)));
+        gravity = Force::Gravity(forces, matter, UnitVec3(0, -1, 0), 9.8);
+        cball = Constraint::Ball(b2, Vec3(0.1, 0, 0), freeB, Vec3(0, -0.2, 0));
+        noslip = Constraint::NoSlip1D(matter.Ground(), Vec3(0.2, 0.1, 0), UnitVec3(1, 0, 0), b1, freeB);
+        ccoord = Constraint::ConstantCoordinate(b3, MobilizerQIndex(0), 0.2);
+        cacc = Constraint::ConstantAcceleration(b1, MobilizerUIndex(0), 0.7);
+        rod = Constraint::Rod(b1, Vec3(0.3, 0, 0), b3, Vec3(0, 0.2, 0), 1.1);
+        break; }
+    case 7: {   // prescribed motions: Steady on a Pin, Sinusoid (time dependent) on its Slider child, Steady with per-axis rates on a Free body
+        b1 = MobilizedBody::Pin(matter.Ground(), Xb1P, body, Xb1B);
+        b2 = MobilizedBody::Slider(b1, Xb2P, body, Xb2B);
+        b3 = MobilizedBody::Pin(b2, Transform(Vec3(0.1, 0.2, 0)), body, Transform(Vec3(0, 0.5, 0)));    // free child: feels the prescribed parents
+        freeB = MobilizedBody::Free(matter.Ground(), Transform(Vec3(1, 0, 0)), body, Transform(Vec3(0)));
+        gravity = Force::Gravity(forces, matter, UnitVec3(0, -1, 0), 9.8);
+        steady = Motion::Steady(b1, 0.5);
+        sinus = Motion::Sinusoid(b2, Motion::Position, 0.3, 2.0, 0.4);
+        steadyFree = Motion::Steady(freeB, Vec6(0.1, 0.2, 0.3, -0.1, -0.2, -0.3));
+        damper = Force::MobilityLinearDamper(forces, b3, MobilizerUIndex(0), 2);
+        {   // FunctionBased mobilizer with 5 mobilities: its H matrix is cached by the mobilizer itself and must be refreshed after every q change
+            std::vector<const Function*> fn(6); std::vector<std::vector<int> > ci(6);
+            for (int i = 0; i < 5; ++i) { fn[i] = new Function::Linear(Vector(Vec2(1, 0))); ci[i] = {i}; }
+            fn[5] = new Function::Sinusoid(0.3, 1.5, 0.2); ci[5] = {3};
+            fbased = MobilizedBody::FunctionBased(matter.Ground(), Transform(Vec3(-1, 0, 0.5)), body, Transform(Vec3(0, 0.3, 0)), 5, fn, ci);
+        }
+        break; }
+    case 8: {   // contact constraints (rolling enforced: 3 equations each) on two Free bodies
+        freeB = MobilizedBody::Free(matter.Ground(), Transform(Vec3(0, 0.5, 0)), body, Transform(Vec3(0)));
+        freeC = MobilizedBody::Free(matter.Ground(), Transform(Vec3(0.9, 0.5, 0)), body, Transform(Vec3(0)));
+        gravity = Force::Gravity(forces, matter, UnitVec3(0, -1, 0), 9.8);
+        sop = Constraint::SphereOnPlaneContact(matter.Ground(), Transform(Rotation(-Pi / 2, XAxis), Vec3(0)), freeB, Vec3(0.05, 0, 0), 0.5, true);   // plane normal (z of the frame) = +y
+        sos = Constraint::SphereOnSphereContact(freeB, Vec3(0.05, 0, 0), 0.5, freeC, Vec3(0, 0.02, 0), 0.4, true);
+        lol = Constraint::LineOnLineContact(matter.Ground(), Transform(Rotation(), Vec3(0.9, 1.2, 0)), 1.0, freeC, Transform(Rotation(Pi / 2, YAxis), Vec3(0, 0.6, 0)), 1.0, true);
+        break; }
+    case 9: {   // remaining force-side families
+        b1 = MobilizedBody::Pin(matter.Ground(), Xb1P, body, Xb1B);
+        Body::Rigid ballBody = stdBody();
+        ballBody.addContactSurface(Transform(), ContactSurface(ContactGeometry::Sphere(0.3), ContactMaterial(1e5, 0.3, 0.8, 0.6, 0.1)));
+        matter.Ground().updBody().addContactSurface(Transform(Rotation(-Pi / 2, ZAxis), Vec3(0)), ContactSurface(ContactGeometry::HalfSpace(), ContactMaterial(2e5, 0.2, 0.7, 0.5, 0.2)));   // half space y<0
+        freeB = MobilizedBody::Free(matter.Ground(), Transform(Vec3(0.4, 0.28, 0.1)), ballBody, Transform(Vec3(0)));
+        ctracker.reset(new ContactTrackerSubsystem(sys));
+        ccs.reset(new CompliantContactSubsystem(sys, *ctracker)); ccs->setTrackDissipatedEnergy(true);
+        gravity = Force::Gravity(forces, matter, UnitVec3(0, -1, 0), 9.8);
+        expspring.reset(new ExponentialSpringForce(forces, Transform(Rotation(-Pi / 2, XAxis), Vec3(0)), freeB, Vec3(0.1, -0.28, 0)));
+        bushing = Force::LinearBushing(forces, b1, Transform(Vec3(0.1, 0, 0)), freeB, Transform(Vec3(0, 0.1, 0)), Vec6(5, 6, 7, 50, 60, 70), Vec6(0.5, 0.6, 0.7, 1, 2, 3));
+        discrete = Force::DiscreteForces(forces, matter);
+        break; }
+    }
+}
+
 // ---------------------------------------------------------------- operations
 struct Op { std::string name; bool isSetter; std::function<void(Fixture&, State&)> f; };
+
+// Added variants: every realization that passes Stage::Dynamics first fills the zdot cache with a sentinel (like a memory-checker fill), so that a
+// zdot slot which no element writes shows the sentinel deterministically instead of whatever the heap or an earlier realization left there.
+static const double kZdotSentinel = -98765.4321;
+static void rz(Fixture& F, State& s, Stage g) {
+    if (s.getSystemStage() < Stage::Dynamics && g >= Stage::Dynamics) {
+        F.sys.realize(s, Stage::Velocity);
+        Vector& zd = s.updZDot(); for (int i = 0; i < zd.size(); ++i) zd[i] = kZdotSentinel;
+    }
+    F.sys.realize(s, g);
+}
+
+// Sub-alphabets of the added variants: every operation name carries the variant tag, so violation keys name variant + element + setter.
+static std::vector<Op> makeOpsAdded(int variant) {
+    std::vector<Op> ops;
+    const std::string T = std::string(kVariantTag[variant]) + ":";
+    auto add = [&](const std::string& n, bool setter, std::function<void(Fixture&, State&)> f) { ops.push_back({T + n, setter, f}); };
+    // realization to every stage above Model and lazy queries (not setters)
+    add("realize(Instance)", false, [](Fixture& F, State& s) { F.sys.realize(s, Stage::Instance); });
+    add("realize(Time)", false, [](Fixture& F, State& s) { F.sys.realize(s, Stage::Time); });
+    add("realize(Position)", false, [](Fixture& F, State& s) { F.sys.realize(s, Stage::Position); });
+    add("realize(Velocity)", false, [](Fixture& F, State& s) { F.sys.realize(s, Stage::Velocity); });
+    add("realize(Dynamics)", false, [](Fixture& F, State& s) { rz(F, s, Stage::Dynamics); });
+    add("realize(Acceleration)", false, [](Fixture& F, State& s) { rz(F, s, Stage::Acceleration); });
+    add("realize(Report)", false, [](Fixture& F, State& s) { rz(F, s, Stage::Report); });
+    add("query.calcM+ABI+CBI", false, [](Fixture& F, State& s) { F.sys.realize(s, Stage::Position); Matrix M; F.matter.calcM(s, M); F.matter.realizeCompositeBodyInertias(s); F.matter.realizeArticulatedBodyInertias(s); });
+    add("query.PE", false, [](Fixture& F, State& s) { rz(F, s, Stage::Dynamics); (void)F.sys.calcPotentialEnergy(s); });      // documented: Dynamics stage or later
+    add("prescribe", true, [](Fixture& F, State& s) { F.sys.prescribe(s); });      // writes the q/u of locked / prescribed mobilizers: a state modification
+    auto pinSlider = [&](bool withTime) {
+        for (int v = 0; v < 2; ++v) {
+            std::string sv = std::to_string(v);
+            if (withTime) add("setTime#" + sv, true, [v](Fixture&, State& s) { s.setTime(v ? SV(0.75) : SV(0.25)); });
+            add("b1.setQ#" + sv, true, [v](Fixture& F, State& s) { F.b1.setOneQ(s, 0, v ? SV(0.6) : SV(-0.4)); });
+            add("b2.setQ#" + sv, true, [v](Fixture& F, State& s) { F.b2.setOneQ(s, 0, v ? SV(0.35) : SV(0.1)); });
+            add("b1.setU#" + sv, true, [v](Fixture& F, State& s) { F.b1.setOneU(s, 0, v ? SV(1.5) : SV(-0.5)); });
+            add("b2.setU#" + sv, true, [v](Fixture& F, State& s) { F.b2.setOneU(s, 0, v ? SV(-0.8) : SV(0.3)); });
+        }
+    };
+    auto rotA = [](int v) { return v ? Rotation(BodyRotationSequence, SV(0.4), XAxis, SV(-0.3), YAxis, SV(0.5), ZAxis) : Rotation(BodyRotationSequence, SV(-0.6), XAxis, SV(0.2), YAxis, SV(-0.35), ZAxis); };
+    auto rotB = [](int v) { return v ? Rotation(BodyRotationSequence, SV(-0.25), XAxis, SV(0.45), YAxis, SV(0.15), ZAxis) : Rotation(BodyRotationSequence, SV(0.3), XAxis, SV(0.1), YAxis, SV(-0.2), ZAxis); };
+    switch (variant) {
+    case 3: {
+        // the modelling option is a Model-stage variable: changing it and realizing Model re-allocates q (defaults), so the
+        // histories continue by writing q/u through the mobilizer API (representation-independent "fit" setters)
+        for (int v = 0; v < 2; ++v) {
+            std::string sv = std::to_string(v);
+            add("setUseEulerAngles+realizeModel#" + sv, true, [v](Fixture& F, State& s) { F.matter.setUseEulerAngles(s, v != 0); F.sys.realizeModel(s); });
+            add("setTime#" + sv, true, [v](Fixture&, State& s) { s.setTime(v ? SV(0.75) : SV(0.25)); });
+            add("ball.setQToFitRotation#" + sv, true, [v, rotA](Fixture& F, State& s) { F.ball.setQToFitRotation(s, rotA(v)); });
+            add("free.setQToFitTransform#" + sv, true, [v, rotB](Fixture& F, State& s) { F.freeB.setQToFitTransform(s, Transform(rotB(v), v ? Vec3(SV(0.1), SV(-0.2), SV(0.3)) : Vec3(SV(-0.15), SV(0.25), SV(0.05)))); });
+            add("pin.setQ#" + sv, true, [v](Fixture& F, State& s) { F.b1.setOneQ(s, 0, v ? SV(0.6) : SV(-0.4)); });
+            add("ball.setUToFitAngularVelocity#" + sv, true, [v](Fixture& F, State& s) { F.ball.setUToFitAngularVelocity(s, v ? Vec3(SV(0.5), SV(-1), SV(0.25)) : Vec3(SV(-0.3), SV(0.2), SV(0.7))); });
+            add("free.setUToFitVelocity#" + sv, true, [v](Fixture& F, State& s) { F.freeB.setUToFitVelocity(s, v ? SpatialVec(Vec3(SV(0.2), SV(0.1), SV(-0.4)), Vec3(SV(1), SV(0), SV(-0.5))) : SpatialVec(Vec3(SV(-0.1), SV(0.3), SV(0.2)), Vec3(SV(-0.6), SV(0.4), SV(0.1)))); });
+            add("pin.setU#" + sv, true, [v](Fixture& F, State& s) { F.b1.setOneU(s, 0, v ? SV(1.5) : SV(-0.5)); });
+            add("updQ[2]#" + sv, true, [v](Fixture&, State& s) { s.updQ()[2] = v ? SV(0.3) : SV(-0.2); });      // quaternion mode: leaves the Ball's quaternion un-normalized
+            add("Gravity.setMagnitude#" + sv, true, [v](Fixture& F, State& s) { F.gravity.setMagnitude(s, v ? 3.7 : 0); });
+            add("LinearBushing.setStiffness#" + sv, true, [v](Fixture& F, State& s) { F.bushing.setStiffness(s, v ? Vec6(1, 2, 3, 4, 5, 6) : Vec6(0)); });
+            add("Rod.setRodLength#" + sv, true, [v](Fixture& F, State& s) { F.rod.setRodLength(s, v ? SV(1.4) : SV(0.8)); });
+            add("Rod.disable/enable#" + sv, true, [v](Fixture& F, State& s) { if (v) F.rod.disable(s); else F.rod.enable(s); });
+        }
+        add("convertToEulerAngles", true, [](Fixture& F, State& s) { State o; F.matter.convertToEulerAngles(s, o); s = o; });
+        add("convertToQuaternions", true, [](Fixture& F, State& s) { State o; F.matter.convertToQuaternions(s, o); s = o; });
+        add("normalizeQuaternions", true, [](Fixture& F, State& s) { F.sys.realize(s, Stage::Time); F.matter.normalizeQuaternions(s); });   // realizes the matter subsystem to Position itself, which needs Stage::Time
+        add("ball.lock(Position)", true, [](Fixture& F, State& s) { F.ball.lock(s, Motion::Position); });
+        add("free.lock(Velocity)", true, [](Fixture& F, State& s) { F.freeB.lock(s, Motion::Velocity); });
+        add("ball.unlock", true, [](Fixture& F, State& s) { F.ball.unlock(s); });
+        add("free.unlock", true, [](Fixture& F, State& s) { F.freeB.unlock(s); });
+        add("query.N-operators", false, [](Fixture& F, State& s) {
+            F.sys.realize(s, Stage::Velocity);
+            Vector u(s.getNU()), q(s.getNQ()), o; for (int i = 0; i < u.size(); ++i) u[i] = 1 + 0.5 * i; for (int i = 0; i < q.size(); ++i) q[i] = 0.5 - 0.25 * i;
+            F.matter.multiplyByN(s, false, u, o); F.matter.multiplyByNInv(s, false, q, o); F.matter.multiplyByNDot(s, false, u, o); F.matter.multiplyByN(s, true, q, o);
+        });
+        break; }
+    case 4: {
+        pinSlider(true);
+        for (int v = 0; v < 2; ++v) {
+            std::string sv = std::to_string(v);
+            add("custom.updZ[0]#" + sv, true, [v](Fixture& F, State& s) { F.forces.updZ(s)[F.zforce->z0] = v ? SV(0.7) : SV(-0.3); });
+            add("custom.updZ[1]#" + sv, true, [v](Fixture& F, State& s) { F.forces.updZ(s)[F.zforce->z0 + 1] = v ? SV(-1.1) : SV(0.45); });
+            add("custom.setGain#" + sv, true, [v](Fixture& F, State& s) { Value<Real>::updDowncast(F.forces.updDiscreteVariable(s, F.zforce->gainIx)) = v ? SV(5) : SV(-1.5); });
+            add("Thermostat.setChainState#" + sv, true, [v](Fixture& F, State& s) { const int n = 2 * F.thermo.getNumChains(s); Vector z(n); for (int i = 0; i < n; ++i) z[i] = (v ? SV(0.3) : SV(-0.2)) * (i + 1); F.thermo.setChainState(s, z); });
+            add("Thermostat.setBathTemperature#" + sv, true, [v](Fixture& F, State& s) { F.thermo.setBathTemperature(s, v ? SV(10) : SV(0.5)); });
+            add("Thermostat.setRelaxationTime#" + sv, true, [v](Fixture& F, State& s) { F.thermo.setRelaxationTime(s, v ? SV(2) : SV(0.1)); });
+            add("Thermostat.setExternalWork#" + sv, true, [v](Fixture& F, State& s) { F.thermo.setExternalWork(s, v ? SV(3) : SV(-1)); });
+            add("Thermostat.setNumChains+realizeModel#" + sv, true, [v](Fixture& F, State& s) { F.thermo.setNumChains(s, v ? 3 : 1); F.sys.realizeModel(s); });
+            add("Thermostat.setNumExcludedDofs+realizeModel#" + sv, true, [v](Fixture& F, State& s) { F.thermo.setNumExcludedDofs(s, v ? 1 : 0); F.sys.realizeModel(s); });
+            add("LinearBushing.setDissipatedEnergy#" + sv, true, [v](Fixture& F, State& s) { F.bushing.setDissipatedEnergy(s, v ? SV(2.5) : SV(0)); });
+            add("LinearBushing.setDamping#" + sv, true, [v](Fixture& F, State& s) { F.bushing.setDamping(s, v ? Vec6(3, 2, 1, 3, 2, 1) : Vec6(0)); });
+            add("setForceIsDisabled(thermostat)#" + sv, true, [v](Fixture& F, State& s) { F.forces.setForceIsDisabled(s, F.thermo.getForceIndex(), v != 0); });
+            add("setForceIsDisabled(bushing)#" + sv, true, [v](Fixture& F, State& s) { F.forces.setForceIsDisabled(s, F.bushing.getForceIndex(), v != 0); });
+            add("ConstantSpeed.disable/enable#" + sv, true, [v](Fixture& F, State& s) { if (v) F.cspeed.disable(s); else F.cspeed.enable(s); });
+        }
+        add("Thermostat.initializeChainState", true, [](Fixture& F, State& s) { F.thermo.initializeChainState(s); });
+        break; }
+    case 5: {
+        pinSlider(false);
+        for (int v = 0; v < 2; ++v) {
+            std::string sv = std::to_string(v);
+            add("CableSpring.setStiffness#" + sv, true, [v](Fixture& F, State& s) { F.cspring.setStiffness(s, v ? SV(200) : SV(5)); });
+            add("CableSpring.setSlackLength#" + sv, true, [v](Fixture& F, State& s) { F.cspring.setSlackLength(s, v ? SV(4) : SV(0.5)); });     // 4: slack (no tension)
+            add("CableSpring.setDissipationCoef#" + sv, true, [v](Fixture& F, State& s) { F.cspring.setDissipationCoef(s, v ? SV(0.8) : 0); });
+            add("CableSpring.setDissipatedEnergy#" + sv, true, [v](Fixture& F, State& s) { F.cspring.setDissipatedEnergy(s, v ? SV(1.25) : 0); });
+            add("CablePath.setIntegratedCableLengthDot#" + sv, true, [v](Fixture& F, State& s) { F.path->setIntegratedCableLengthDot(s, v ? SV(2.2) : SV(-0.3)); });
+            add("setForceIsDisabled(cableSpring)#" + sv, true, [v](Fixture& F, State& s) { F.forces.setForceIsDisabled(s, F.cspring.getForceIndex(), v != 0); });
+            add("Gravity.setMagnitude#" + sv, true, [v](Fixture& F, State& s) { F.gravity.setMagnitude(s, v ? 3.7 : 0); });
+        }
+        add("b2.lock(Position)", true, [](Fixture& F, State& s) { F.b2.lock(s, Motion::Position); });
+        add("b2.unlock", true, [](Fixture& F, State& s) { F.b2.unlock(s); });
+        add("query.cableTension+power", false, [](Fixture& F, State& s) { F.sys.realize(s, Stage::Velocity); (void)F.cspring.getTension(s); (void)F.cspring.getPowerDissipation(s); (void)F.path->getCableLengthDot(s); });
+        break; }
+    case 6: {
+        pinSlider(false);
+        for (int v = 0; v < 2; ++v) {
+            std::string sv = std::to_string(v);
+            add("free.setQToFitTransform#" + sv, true, [v, rotB](Fixture& F, State& s) { F.freeB.setQToFitTransform(s, Transform(rotB(v), v ? Vec3(SV(0.1), SV(-0.2), SV(0.3)) : Vec3(SV(-0.15), SV(0.25), SV(0.05)))); });
+            add("free.setUToFitVelocity#" + sv, true, [v](Fixture& F, State& s) { F.freeB.setUToFitVelocity(s, v ? SpatialVec(Vec3(SV(0.2), SV(0.1), SV(-0.4)), Vec3(SV(1), SV(0), SV(-0.5))) : SpatialVec(Vec3(SV(-0.1), SV(0.3), SV(0.2)), Vec3(SV(-0.6), SV(0.4), SV(0.1)))); });
+            add("Ball.setPointOnBody1#" + sv, true, [v](Fixture& F, State& s) { F.cball.setPointOnBody1(s, v ? Vec3(SV(0.3), SV(0.1), 0) : Vec3(0, SV(-0.1), SV(0.2))); });
+            add("Ball.setPointOnBody2#" + sv, true, [v](Fixture& F, State& s) { F.cball.setPointOnBody2(s, v ? Vec3(SV(-0.2), 0, SV(0.1)) : Vec3(SV(0.15), SV(0.15), 0)); });
+            add("NoSlip1D.setContactPoint#" + sv, true, [v](Fixture& F, State& s) { F.noslip.setContactPoint(s, v ? Vec3(SV(0.5), SV(0.2), SV(0.1)) : Vec3(SV(-0.1), 0, SV(0.3))); });
+            add("NoSlip1D.setDirection#" + sv, true, [v](Fixture& F, State& s) { F.noslip.setDirection(s, v ? UnitVec3(0, 1, 0) : UnitVec3(1, 1, 1)); });
+            add("ConstantCoordinate.setPosition#" + sv, true, [v](Fixture& F, State& s) { F.ccoord.setPosition(s, v ? SV(0.9) : SV(-0.3)); });
+            add("ConstantAcceleration.setAcceleration#" + sv, true, [v](Fixture& F, State& s) { F.cacc.setAcceleration(s, v ? SV(-2) : SV(0.25)); });
+            add("Rod.setPointOnBody1#" + sv, true, [v](Fixture& F, State& s) { F.rod.setPointOnBody1(s, v ? Vec3(SV(0.1), SV(0.2), 0) : Vec3(0, 0, SV(0.3))); });
+            add("Rod.setPointOnBody2#" + sv, true, [v](Fixture& F, State& s) { F.rod.setPointOnBody2(s, v ? Vec3(SV(0.2), 0, SV(-0.1)) : Vec3(0, SV(0.4), 0)); });
+            add("Rod.setRodLength#" + sv, true, [v](Fixture& F, State& s) { F.rod.setRodLength(s, v ? SV(1.4) : SV(0.8)); });
+            add("Ball.disable/enable#" + sv, true, [v](Fixture& F, State& s) { if (v) F.cball.disable(s); else F.cball.enable(s); });
+            add("NoSlip1D.disable/enable#" + sv, true, [v](Fixture& F, State& s) { if (v) F.noslip.disable(s); else F.noslip.enable(s); });
+            add("ConstantCoordinate.disable/enable#" + sv, true, [v](Fixture& F, State& s) { if (v) F.ccoord.disable(s); else F.ccoord.enable(s); });
+            add("ConstantAcceleration.disable/enable#" + sv, true, [v](Fixture& F, State& s) { F.matter.setConstraintIsDisabled(s, F.cacc.getConstraintIndex(), v != 0); });
+            add("Rod.disable/enable#" + sv, true, [v](Fixture& F, State& s) { if (v) F.rod.disable(s); else F.rod.enable(s); });
+        }
+        break; }
+    case 7: {
+        pinSlider(true);
+        for (int v = 0; v < 2; ++v) {
+            std::string sv = std::to_string(v);
+            add("b3.setQ#" + sv, true, [v](Fixture& F, State& s) { F.b3.setOneQ(s, 0, v ? SV(0.5) : SV(-0.7)); });
+            add("b3.setU#" + sv, true, [v](Fixture& F, State& s) { F.b3.setOneU(s, 0, v ? SV(-1.2) : SV(0.4)); });
+            add("free.setQToFitTransform#" + sv, true, [v, rotB](Fixture& F, State& s) { F.freeB.setQToFitTransform(s, Transform(rotB(v), v ? Vec3(SV(0.1), SV(-0.2), SV(0.3)) : Vec3(SV(-0.15), SV(0.25), SV(0.05)))); });
+            add("fbased.setQ#" + sv, true, [v](Fixture& F, State& s) { Vector q(5); for (int i = 0; i < 5; ++i) q[i] = (v ? SV(0.3) : SV(-0.2)) * (i + 1) * (i % 2 ? -1 : 1); F.fbased.setQFromVector(s, q); });
+            add("fbased.setU#" + sv, true, [v](Fixture& F, State& s) { Vector u(5); for (int i = 0; i < 5; ++i) u[i] = (v ? SV(-0.5) : SV(0.8)) / (i + 1); F.fbased.setUFromVector(s, u); });
+            add("Steady.setRate#" + sv, true, [v](Fixture& F, State& s) { F.steady.setRate(s, v ? SV(-1.25) : SV(2)); });
+            add("SteadyFree.setOneRate(2)#" + sv, true, [v](Fixture& F, State& s) { F.steadyFree.setOneRate(s, MobilizerUIndex(2), v ? SV(0.9) : SV(-0.6)); });
+            add("SteadyFree.setRate#" + sv, true, [v](Fixture& F, State& s) { F.steadyFree.setRate(s, v ? SV(0.35) : 0); });
+            add("Steady.disable/enable#" + sv, true, [v](Fixture& F, State& s) { if (v) F.steady.disable(s); else F.steady.enable(s); });
+            add("Sinusoid.disable/enable#" + sv, true, [v](Fixture& F, State& s) { if (v) F.sinus.disable(s); else F.sinus.enable(s); });
+            add("SteadyFree.disable/enable#" + sv, true, [v](Fixture& F, State& s) { if (v) F.steadyFree.disable(s); else F.steadyFree.enable(s); });
+            add("MobilityLinearDamper.setDamping#" + sv, true, [v](Fixture& F, State& s) { F.damper.setDamping(s, v ? 7 : 0.5); });
+        }
+        add("b1.lock(Velocity)", true, [](Fixture& F, State& s) { F.b1.lock(s, Motion::Velocity); });       // a lock overrides the Motion
+        add("b2.lockAt(0.15)", true, [](Fixture& F, State& s) { F.b2.lockAt(s, SV(0.15), Motion::Position); });
+        add("b1.unlock", true, [](Fixture& F, State& s) { F.b1.unlock(s); });
+        add("b2.unlock", true, [](Fixture& F, State& s) { F.b2.unlock(s); });
+        break; }
+    case 8: {
+        for (int v = 0; v < 2; ++v) {
+            std::string sv = std::to_string(v);
+            add("freeB.setQToFitTransform#" + sv, true, [v, rotA](Fixture& F, State& s) { F.freeB.setQToFitTransform(s, Transform(rotA(v), v ? Vec3(SV(0.1), SV(0.02), SV(0.3)) : Vec3(SV(-0.15), SV(-0.01), SV(0.05)))); });
+            add("freeC.setQToFitTransform#" + sv, true, [v, rotB](Fixture& F, State& s) { F.freeC.setQToFitTransform(s, Transform(rotB(v), v ? Vec3(SV(0.05), SV(0.1), SV(-0.2)) : Vec3(SV(-0.1), SV(0.05), SV(0.15)))); });
+            add("freeB.setUToFitVelocity#" + sv, true, [v](Fixture& F, State& s) { F.freeB.setUToFitVelocity(s, v ? SpatialVec(Vec3(SV(0.2), SV(0.1), SV(-0.4)), Vec3(SV(1), SV(0), SV(-0.5))) : SpatialVec(Vec3(SV(-0.1), SV(0.3), SV(0.2)), Vec3(SV(-0.6), SV(0.4), SV(0.1)))); });
+            add("freeC.setUToFitVelocity#" + sv, true, [v](Fixture& F, State& s) { F.freeC.setUToFitVelocity(s, v ? SpatialVec(Vec3(SV(-0.3), SV(0.2), SV(0.1)), Vec3(SV(0.2), SV(-0.7), SV(0.3))) : SpatialVec(Vec3(SV(0.4), SV(-0.1), SV(0.25)), Vec3(SV(0.5), SV(0.1), SV(-0.2)))); });
+            add("SphereOnPlane.setPlaneFrame#" + sv, true, [v](Fixture& F, State& s) { F.sop.setPlaneFrame(s, v ? Transform(Rotation(-Pi / 2 + SV(0.1), XAxis), Vec3(0, SV(0.05), 0)) : Transform(Rotation(BodyRotationSequence, -Pi / 2, XAxis, SV(0.2), YAxis), Vec3(SV(0.1), SV(-0.05), 0))); });
+            add("SphereOnPlane.setSphereCenter#" + sv, true, [v](Fixture& F, State& s) { F.sop.setSphereCenter(s, v ? Vec3(0, SV(0.1), SV(0.05)) : Vec3(SV(-0.1), 0, 0)); });
+            add("SphereOnPlane.setSphereRadius#" + sv, true, [v](Fixture& F, State& s) { F.sop.setSphereRadius(s, v ? SV(0.7) : SV(0.3)); });
+            add("SphereOnSphere.setCenterOnF#" + sv, true, [v](Fixture& F, State& s) { F.sos.setCenterOnF(s, v ? Vec3(0, SV(0.1), SV(0.05)) : Vec3(SV(-0.1), 0, 0)); });
+            add("SphereOnSphere.setRadiusOnF#" + sv, true, [v](Fixture& F, State& s) { F.sos.setRadiusOnF(s, v ? SV(0.6) : SV(0.35)); });
+            add("SphereOnSphere.setCenterOnB#" + sv, true, [v](Fixture& F, State& s) { F.sos.setCenterOnB(s, v ? Vec3(SV(0.08), 0, SV(-0.04)) : Vec3(0, SV(-0.06), 0)); });
+            add("SphereOnSphere.setRadiusOnB#" + sv, true, [v](Fixture& F, State& s) { F.sos.setRadiusOnB(s, v ? SV(0.55) : SV(0.25)); });
+            add("LineOnLine.setEdgeFrameF#" + sv, true, [v](Fixture& F, State& s) { F.lol.setEdgeFrameF(s, v ? Transform(Rotation(SV(0.2), ZAxis), Vec3(SV(0.8), SV(1.25), 0)) : Transform(Rotation(SV(-0.15), YAxis), Vec3(SV(1), SV(1.1), SV(0.1)))); });
+            add("LineOnLine.setHalfLengthF#" + sv, true, [v](Fixture& F, State& s) { F.lol.setHalfLengthF(s, v ? SV(2) : SV(0.5)); });
+            add("LineOnLine.setEdgeFrameB#" + sv, true, [v](Fixture& F, State& s) { F.lol.setEdgeFrameB(s, v ? Transform(Rotation(Pi / 2 + SV(0.1), YAxis), Vec3(0, SV(0.55), 0)) : Transform(Rotation(BodyRotationSequence, Pi / 2, YAxis, SV(0.2), XAxis), Vec3(SV(0.05), SV(0.65), 0))); });
+            add("LineOnLine.setHalfLengthB#" + sv, true, [v](Fixture& F, State& s) { F.lol.setHalfLengthB(s, v ? SV(1.5) : SV(0.75)); });
+            add("SphereOnPlane.disable/enable#" + sv, true, [v](Fixture& F, State& s) { if (v) F.sop.disable(s); else F.sop.enable(s); });
+            add("SphereOnSphere.disable/enable#" + sv, true, [v](Fixture& F, State& s) { if (v) F.sos.disable(s); else F.sos.enable(s); });
+            add("LineOnLine.disable/enable#" + sv, true, [v](Fixture& F, State& s) { if (v) F.lol.disable(s); else F.lol.enable(s); });
+        }
+        break; }
+    case 9: {
+        for (int v = 0; v < 2; ++v) {
+            std::string sv = std::to_string(v);
+            add("b1.setQ#" + sv, true, [v](Fixture& F, State& s) { F.b1.setOneQ(s, 0, v ? SV(0.6) : SV(-0.4)); });
+            add("b1.setU#" + sv, true, [v](Fixture& F, State& s) { F.b1.setOneU(s, 0, v ? SV(1.5) : SV(-0.5)); });
+            add("free.setQToFitTransform#" + sv, true, [v, rotB](Fixture& F, State& s) { F.freeB.setQToFitTransform(s, Transform(rotB(v), v ? Vec3(SV(0.1), SV(-0.03), SV(0.3)) : Vec3(SV(-0.15), SV(0.2), SV(0.05)))); });   // #1 deeper in contact, #0 out of contact
+            add("free.setUToFitVelocity#" + sv, true, [v](Fixture& F, State& s) { F.freeB.setUToFitVelocity(s, v ? SpatialVec(Vec3(SV(0.2), SV(0.1), SV(-0.4)), Vec3(SV(1), SV(-0.2), SV(-0.5))) : SpatialVec(Vec3(SV(-0.1), SV(0.3), SV(0.2)), Vec3(SV(-0.6), SV(0.4), SV(0.1)))); });
+            add("ExponentialSpring.setMuStatic#" + sv, true, [v](Fixture& F, State& s) { F.expspring->setMuStatic(s, v ? SV(1.2) : SV(0.1)); });
+            add("ExponentialSpring.setMuKinetic#" + sv, true, [v](Fixture& F, State& s) { F.expspring->setMuKinetic(s, v ? SV(0.9) : SV(0.05)); });
+            add("CompliantContact.setDissipatedEnergy#" + sv, true, [v](Fixture& F, State& s) { F.ccs->setDissipatedEnergy(s, v ? SV(1.75) : 0); });
+            add("LinearBushing.setFrameOnBody1#" + sv, true, [v](Fixture& F, State& s) { F.bushing.setFrameOnBody1(s, v ? Transform(Rotation(SV(0.3), XAxis), Vec3(0, SV(0.2), 0)) : Transform(Vec3(SV(0.25), 0, SV(0.1)))); });
+            add("LinearBushing.setFrameOnBody2#" + sv, true, [v](Fixture& F, State& s) { F.bushing.setFrameOnBody2(s, v ? Transform(Rotation(SV(-0.2), YAxis), Vec3(SV(0.1), 0, 0)) : Transform(Vec3(0, SV(-0.15), 0))); });
+            add("LinearBushing.setDissipatedEnergy#" + sv, true, [v](Fixture& F, State& s) { F.bushing.setDissipatedEnergy(s, v ? SV(2.5) : 0); });
+            add("DiscreteForces.setAllMobilityForces#" + sv, true, [v](Fixture& F, State& s) { Vector f(v ? s.getNU() : 0); for (int i = 0; i < f.size(); ++i) f[i] = SV(0.5) * (i - 2); F.discrete.setAllMobilityForces(s, f); });
+            add("DiscreteForces.setAllBodyForces#" + sv, true, [v](Fixture& F, State& s) { Vector_<SpatialVec> f(v ? F.matter.getNumBodies() : 0); for (int i = 0; i < f.size(); ++i) f[i] = SpatialVec(Vec3(SV(0.1) * i, 0, SV(-0.2)), Vec3(0, SV(1.5) * i, SV(0.3))); F.discrete.setAllBodyForces(s, f); });
+            add("DiscreteForces.addForceToBodyPoint#" + sv, true, [v](Fixture& F, State& s) { F.sys.realize(s, Stage::Position); F.discrete.addForceToBodyPoint(s, F.freeB, v ? Vec3(SV(0.1), SV(0.2), 0) : Vec3(0, 0, SV(-0.3)), v ? Vec3(0, SV(4), 0) : Vec3(SV(1), 0, SV(2))); });
+            add("Force::disable/enable(expSpring)#" + sv, true, [v](Fixture& F, State& s) { if (v) F.expspring->disable(s); else F.expspring->enable(s); });
+            add("Force::disable/enable(bushing)#" + sv, true, [v](Fixture& F, State& s) { if (v) F.bushing.disable(s); else F.bushing.enable(s); });
+            add("Force::disable/enable(discrete)#" + sv, true, [v](Fixture& F, State& s) { if (v) F.discrete.disable(s); else F.discrete.enable(s); });
+        }
+        add("ExponentialSpring.resetAnchorPoint", true, [](Fixture& F, State& s) { F.expspring->resetAnchorPoint(s); });
+        add("DiscreteForces.clearAllMobilityForces", true, [](Fixture& F, State& s) { F.discrete.clearAllMobilityForces(s); });
+        add("DiscreteForces.clearAllBodyForces", true, [](Fixture& F, State& s) { F.discrete.clearAllBodyForces(s); });
+        break; }
+    }
+    return ops;
+}
+
 static std::vector<Op> makeOps(int variant) {
+    if (variant >= 3) return makeOpsAdded(variant);
     std::vector<Op> ops;
     auto add = [&](const std::string& n, bool setter, std::function<void(Fixture&, State&)> f) { ops.push_back({n, setter, f}); };
     // realization and lazy queries (not setters)
@@ -108,10 +464,61 @@ static std::vector<Op> makeOps(int variant) {
 
 // ---------------------------------------------------------------- observation
 static void push(std::vector<double>& o, const Vec3& v) { for (int i = 0; i < 3; ++i) o.push_back(v[i]); }
+static bool gZdotUnwritten = false;     // set by observe(): some zdot slot still held the sentinel after realize(Acceleration)
+static void push(std::vector<double>& o, const Transform& X) { push(o, X.p()); for (int i = 0; i < 3; ++i) for (int j = 0; j < 3; ++j) o.push_back(X.R()[i][j]); }
+// additional observation of the added variants: everything downstream of the families they contain
+static void observeAdded(Fixture& F, State& s, std::vector<double>& o, const std::function<void(const std::string&)>& mark) {
+    mark("qdot"); for (int i = 0; i < s.getNQ(); ++i) o.push_back(s.getQDot()[i]);
+    mark("qdotdot"); for (int i = 0; i < s.getNQ(); ++i) o.push_back(s.getQDotDot()[i]);
+    mark("eventTriggers"); { const Vector& t = s.getEventTriggers(); o.push_back(t.size()); for (int i = 0; i < t.size(); ++i) o.push_back(t[i]); }
+    for (Stage g = Stage::Time; g <= Stage::Acceleration; ++g) { mark(std::string("eventTriggersByStage.") + g.getName()); const Vector& t = s.getEventTriggersByStage(g); for (int i = 0; i < t.size(); ++i) o.push_back(t[i]); }
+    mark("modelling"); o.push_back(F.matter.getUseEulerAngles(s)); o.push_back(F.matter.getNumQuaternionsInUse(s)); o.push_back(s.getNQ()); o.push_back(s.getNZ()); o.push_back(s.getNMultipliers());
+    mark("motionForces"); { Vector f; F.matter.findMotionForces(s, f); for (int i = 0; i < f.size(); ++i) o.push_back(f[i]); o.push_back(F.matter.calcMotionPower(s)); }
+    mark("constraintPower"); o.push_back(F.matter.calcConstraintPower(s));
+    auto dis = [&](const Constraint& c) { return c.isDisabled(s); };
+    if (!F.rod.isEmptyHandle() && F.variant >= 3) { mark("Rod"); o.push_back(dis(F.rod)); if (!dis(F.rod)) { o.push_back(F.rod.getRodLength(s)); o.push_back(F.rod.getPositionError(s)); o.push_back(F.rod.getVelocityError(s)); o.push_back(F.rod.getAccelerationError(s)); o.push_back(F.rod.getRodTension(s)); push(o, Vec3(F.rod.findRodOrientationInG(s))); o.push_back(F.rod.findLengthViolation(s)); } }
+    switch (F.variant) {
+    case 4: {
+        const bool on = !F.forces.isForceDisabled(s, F.thermo.getForceIndex());
+        mark("Thermostat"); o.push_back(on); o.push_back(F.thermo.getNumChains(s)); o.push_back(F.thermo.getNumThermalDofs(s)); o.push_back(F.thermo.getBathTemperature(s)); o.push_back(F.thermo.getRelaxationTime(s));
+        o.push_back(F.thermo.calcBathEnergy(s)); o.push_back(F.thermo.getExternalWork(s)); { Vector z = F.thermo.getChainState(s); for (int i = 0; i < z.size(); ++i) o.push_back(z[i]); }
+        if (on) { o.push_back(F.thermo.getCurrentTemperature(s)); o.push_back(F.thermo.getExternalPower(s)); }
+        break; }
+    case 5: {
+        mark("CablePath"); o.push_back(F.path->getCableLength(s)); o.push_back(F.path->getCableLengthDot(s)); o.push_back(F.path->getIntegratedCableLengthDot(s)); o.push_back(F.path->calcCablePower(s, 2.5));
+        const bool on = !F.forces.isForceDisabled(s, F.cspring.getForceIndex());
+        mark("CableSpring"); o.push_back(on); o.push_back(F.cspring.getStiffness(s)); o.push_back(F.cspring.getSlackLength(s)); o.push_back(F.cspring.getDissipationCoef(s)); o.push_back(F.cspring.getDissipatedEnergy(s));
+        o.push_back(F.cspring.getLength(s)); o.push_back(F.cspring.getLengthDot(s)); o.push_back(F.cspring.getTension(s)); o.push_back(F.cspring.getPotentialEnergy(s)); o.push_back(F.cspring.getPowerDissipation(s));
+        break; }
+    case 6: {
+        mark("Ball"); o.push_back(dis(F.cball)); if (!dis(F.cball)) { push(o, F.cball.getPositionErrors(s)); push(o, F.cball.getVelocityErrors(s)); push(o, F.cball.getAccelerationErrors(s)); push(o, F.cball.getMultipliers(s)); push(o, F.cball.getBallReactionForceOnBody1(s)); push(o, F.cball.getBallReactionForceOnBody2(s)); }
+        mark("ConstantCoordinate"); o.push_back(dis(F.ccoord)); if (!dis(F.ccoord)) { o.push_back(F.ccoord.getPosition(s)); o.push_back(F.ccoord.getPositionError(s)); o.push_back(F.ccoord.getVelocityError(s)); o.push_back(F.ccoord.getAccelerationError(s)); o.push_back(F.ccoord.getMultiplier(s)); }
+        mark("ConstantAcceleration"); o.push_back(dis(F.cacc)); if (!dis(F.cacc)) { o.push_back(F.cacc.getAcceleration(s)); o.push_back(F.cacc.getAccelerationError(s)); o.push_back(F.cacc.getMultiplier(s)); }
+        mark("NoSlip1D"); o.push_back(dis(F.noslip)); if (!dis(F.noslip)) { o.push_back(F.noslip.getVelocityError(s)); o.push_back(F.noslip.getAccelerationError(s)); o.push_back(F.noslip.getMultiplier(s)); o.push_back(F.noslip.getForceAtContactPoint(s)); }
+        break; }
+    case 7: {
+        mark("Motions"); o.push_back(F.steady.isDisabled(s)); o.push_back(F.sinus.isDisabled(s)); o.push_back(F.steadyFree.isDisabled(s)); o.push_back(F.steady.getOneRate(s, MobilizerUIndex(0))); for (int i = 0; i < 6; ++i) o.push_back(F.steadyFree.getOneRate(s, MobilizerUIndex(i)));
+        o.push_back((int)F.steady.getLevel(s)); o.push_back((int)F.sinus.getLevel(s)); o.push_back((int)F.b1.getLockLevel(s)); o.push_back((int)F.b2.getLockLevel(s));
+        break; }
+    case 8: {
+        mark("SphereOnPlane"); o.push_back(dis(F.sop)); if (!dis(F.sop)) { o.push_back(F.sop.getSphereRadius(s)); o.push_back(F.sop.getPositionError(s)); push(o, F.sop.getVelocityErrors(s)); push(o, F.sop.getAccelerationErrors(s)); push(o, F.sop.getMultipliers(s)); push(o, F.sop.findForceOnSphereInG(s)); push(o, F.sop.findContactPointInG(s)); o.push_back(F.sop.findSeparation(s)); }
+        mark("SphereOnSphere"); o.push_back(dis(F.sos)); if (!dis(F.sos)) { o.push_back(F.sos.getRadiusOnF(s)); o.push_back(F.sos.getRadiusOnB(s)); o.push_back(F.sos.getPositionError(s)); push(o, F.sos.getVelocityErrors(s)); push(o, F.sos.getAccelerationErrors(s)); push(o, F.sos.getMultipliers(s)); push(o, F.sos.findForceOnSphereBInG(s)); push(o, F.sos.findContactFrameInG(s)); o.push_back(F.sos.findSeparation(s)); }
+        mark("LineOnLine"); o.push_back(dis(F.lol)); if (!dis(F.lol)) { o.push_back(F.lol.getHalfLengthF(s)); o.push_back(F.lol.getHalfLengthB(s)); o.push_back(F.lol.getPositionError(s)); push(o, F.lol.getVelocityErrors(s)); push(o, F.lol.getAccelerationErrors(s)); push(o, F.lol.getMultipliers(s)); push(o, F.lol.findForceOnBodyBInG(s)); push(o, F.lol.findContactFrameInG(s)); o.push_back(F.lol.findSeparation(s)); }
+        break; }
+    case 9: {
+        const bool on = !F.expspring->isDisabled(s);
+        mark("ExponentialSpring"); o.push_back(on); o.push_back(F.expspring->getMuStatic(s)); o.push_back(F.expspring->getMuKinetic(s));
+        if (on) { o.push_back(F.expspring->getSliding(s)); push(o, F.expspring->getAnchorPointPosition(s)); push(o, F.expspring->getNormalForce(s)); push(o, F.expspring->getFrictionForce(s)); push(o, F.expspring->getForce(s)); push(o, F.expspring->getStationPosition(s)); push(o, F.expspring->getStationVelocity(s)); }
+        mark("CompliantContact"); o.push_back(F.ccs->getDissipatedEnergy(s)); { const int n = F.ccs->getNumContactForces(s); o.push_back(n); for (int i = 0; i < n; ++i) { const ContactForce& f = F.ccs->getContactForce(s, i); push(o, f.getContactPoint()); push(o, f.getForceOnSurface2()[0]); push(o, f.getForceOnSurface2()[1]); o.push_back(f.getPotentialEnergy()); o.push_back(f.getPowerDissipation()); } }
+        mark("DiscreteForces"); { const Vector& mf = F.discrete.getAllMobilityForces(s); o.push_back(mf.size()); for (int i = 0; i < mf.size(); ++i) o.push_back(mf[i]); const Vector_<SpatialVec>& bf = F.discrete.getAllBodyForces(s); o.push_back(bf.size()); for (int i = 0; i < bf.size(); ++i) { push(o, bf[i][0]); push(o, bf[i][1]); } }
+        break; }
+    }
+}
 static std::vector<double> observe(Fixture& F, State& s, std::vector<std::string>* labels = nullptr) {
     std::vector<double> o;
     auto mark = [&](const std::string& l) { if (labels) labels->resize(o.size(), labels->empty() ? l : labels->back()), labels->push_back(l); };
     F.sys.prescribe(s);          // locks/prescribed motion are part of "current variable values -> results"
+    if (F.variant >= 3) rz(F, s, Stage::Acceleration); else
     F.sys.realize(s, Stage::Acceleration);
     mark("time"); o.push_back(s.getTime());
     mark("q"); for (int i = 0; i < s.getNQ(); ++i) o.push_back(s.getQ()[i]);
@@ -128,14 +535,22 @@ static std::vector<double> observe(Fixture& F, State& s, std::vector<std::string
     mark("PE"); o.push_back(F.sys.calcPotentialEnergy(s));
     mark("KE"); o.push_back(F.sys.calcKineticEnergy(s));
     mark("udot"); for (int i = 0; i < s.getNU(); ++i) o.push_back(s.getUDot()[i]);
-    mark("zdot"); for (int i = 0; i < s.getNZ(); ++i) o.push_back(s.getZDot()[i]);
+    mark("zdot"); for (int i = 0; i < s.getNZ(); ++i) {
+        double zd = s.getZDot()[i];
+        if (F.variant >= 3 && zd == kZdotSentinel) { gZdotUnwritten = true; zd = 0; }      // judged by its own oracle (runHistoryOnce), masked here
+        o.push_back(zd);
+    }
     mark("multipliers"); for (int i = 0; i < s.getNMultipliers(); ++i) o.push_back(s.getMultipliers()[i]);
     mark("qerr"); for (int i = 0; i < s.getNQErr(); ++i) o.push_back(s.getQErr()[i]);
     mark("uerr"); for (int i = 0; i < s.getNUErr(); ++i) o.push_back(s.getUErr()[i]);
     mark("udoterr"); for (int i = 0; i < s.getNUDotErr(); ++i) o.push_back(s.getUDotErr()[i]);
     mark("mobilizerReactions"); { Vector_<SpatialVec> R; F.matter.calcMobilizerReactionForces(s, R); for (int i = 0; i < R.size(); ++i) { push(o, R[i][0]); push(o, R[i][1]); } }
-    mark("gravityBodyForces"); { const Vector_<SpatialVec>& g = F.gravity.getBodyForces(s); for (int i = 0; i < g.size(); ++i) { push(o, g[i][0]); push(o, g[i][1]); } }
-    mark("bushing"); { for (int i = 0; i < 6; ++i) o.push_back(F.bushing.getF(s)[i]); o.push_back(F.bushing.getPowerDissipation(s)); }
+    if (!F.gravity.isEmptyHandle()) { mark("gravityBodyForces"); const Vector_<SpatialVec>& g = F.gravity.getBodyForces(s); for (int i = 0; i < g.size(); ++i) { push(o, g[i][0]); push(o, g[i][1]); } }
+    if (!F.bushing.isEmptyHandle() && !(F.variant >= 3 && F.forces.isForceDisabled(s, F.bushing.getForceIndex()))) {
+        mark("bushing"); for (int i = 0; i < 6; ++i) o.push_back(F.bushing.getF(s)[i]); o.push_back(F.bushing.getPowerDissipation(s));
+        if (F.variant >= 3) { for (int i = 0; i < 6; ++i) o.push_back(F.bushing.getQ(s)[i]); o.push_back(F.bushing.getPotentialEnergy(s)); o.push_back(F.bushing.getDissipatedEnergy(s)); }
+    }
+    if (F.variant >= 3) observeAdded(F, s, o, mark);
     if (labels) labels->resize(o.size(), labels->back());
     return o;
 }
@@ -149,6 +564,7 @@ static bool sameBits(const std::vector<double>& a, const std::vector<double>& b,
 static State freshWithSameValues(Fixture& F, const State& s) {
     State f = F.base;
     f.setTime(s.getTime());
+    if (f.getNQ() != s.getNQ() || f.getNU() != s.getNU() || f.getNZ() != s.getNZ()) throw std::runtime_error("modelling differs");   // a Model-stage variable was changed: no raw copy possible
     f.updQ() = s.getQ(); f.updU() = s.getU(); f.updZ() = s.getZ();
     for (SubsystemIndex sx(0); sx < s.getNumSubsystems(); ++sx) {
         const int nd = (int)s.getImpl().subsystems[sx].discreteInfo.size();
@@ -196,37 +612,89 @@ static uint64_t canonKey(Fixture& F, const State& s) {
             if (Value<bool>::isA(v)) h = verif::hashPod(Value<bool>::downcast(v).get(), h);   // e.g. cachedForcesAreValid
         }
     }
+    // values held in variables whose type cannot be printed here, read back through the public API
+    for (MobilizedBodyIndex b(1); b < F.matter.getNumBodies(); ++b) {
+        const MobilizedBody& m = F.matter.getMobilizedBody(b);
+        h = verif::hashPod((int)m.getLockLevel(s), h);
+        if (m.isLocked(s)) { Vector lv = m.getLockValueAsVector(s); for (int i = 0; i < lv.size(); ++i) mixd(lv[i]); }
+        if (m.hasMotion()) h = verif::hashPod(m.getMotion().isDisabled(s), h);
+    }
+    for (ConstraintIndex cx(0); cx < F.matter.getNumConstraints(); ++cx) h = verif::hashPod(F.matter.isConstraintDisabled(s, cx), h);
+    return h;
+}
+// Parameter variables of unprintable types (Gravity::Parameters, LinearBushing::InstanceVars, ...) only contribute their version number
+// to canonKey, which does not tell the two values of a setter apart.  The key therefore also carries, per setter family (operation
+// name before '#'), the last operation of that family in the history: two histories merge only if every family was last set by the same operation.
+static uint64_t shadowKey(const std::vector<Op>& ops, const std::vector<int>& hist, uint64_t h) {
+    std::map<std::string, int> last;
+    for (int o : hist) if (ops[o].isSetter) last[ops[o].name.substr(0, ops[o].name.find('#'))] = o;
+    for (auto& kv : last) h = verif::hashPod(kv.second, h);
     return h;
 }
 
-struct Outcome { bool ok = true; std::string key, what; uint64_t key64 = 0, obsHash = 0; };
+struct Outcome { bool ok = true, reported = false; std::string key, what; uint64_t key64 = 0, obsHash = 0; };
+static std::string histStr(const std::vector<Op>& ops, const std::vector<int>& h);
+static std::string histIdx(const std::vector<int>& h);
+
+// Variant 3 only: the same State expressed in the other orientation representation (convertToEulerAngles / convertToQuaternions)
+// must give the same representation-independent results.  Different arithmetic on the two sides: tolerance, calibrated in notes/C16.md.
+static const double kCrossBound = 1e-9;
+static void crossRepresentation(verif::Run& run, Fixture& F, const State& s, const std::vector<Op>& ops, const std::vector<int>& hist, Outcome& out) {
+    static const std::set<std::string> physical = {"time", "u", "z", "pose", "velocity", "acceleration", "rigidBodyForces", "mobilityForces", "PE", "KE", "udot", "zdot", "multipliers",
+                                                   "uerr", "udoterr", "mobilizerReactions", "gravityBodyForces", "bushing", "motionForces", "constraintPower", "Rod"};
+    State a, b(s);
+    if (F.matter.getUseEulerAngles(s)) F.matter.convertToQuaternions(s, a); else F.matter.convertToEulerAngles(s, a);
+    std::vector<std::string> la, lb; std::vector<double> oa, ob;
+    try { ob = observe(F, b, &lb); oa = observe(F, a, &la); } catch (const std::exception& e) { run.count("cross-representation:observe-threw"); return; }
+    auto segs = [](const std::vector<double>& o, const std::vector<std::string>& l) { std::map<std::string, std::vector<double>> m; for (size_t i = 0; i < o.size() && i < l.size(); ++i) m[l[i]].push_back(o[i]); return m; };
+    auto ma = segs(oa, la), mb = segs(ob, lb);
+    for (auto& kv : mb) {
+        if (!physical.count(kv.first)) continue;
+        const std::vector<double>& x = kv.second; const std::vector<double>& y = ma[kv.first];
+        double err = 0, scale = 1;
+        if (x.size() != y.size()) err = INFINITY;
+        else { for (size_t i = 0; i < x.size(); ++i) scale = std::max(scale, std::max(std::abs(x[i]), std::abs(y[i]))); for (size_t i = 0; i < x.size(); ++i) err = std::max(err, std::abs(x[i] - y[i]) / scale); }
+        bool ok = run.residual("cross-representation-results", err, kCrossBound, [&] { return "variant 3 history [" + histStr(ops, hist) + "] component " + kv.first; },
+                               [&] { return "section=plain\nvariant=3\nhistory=" + histIdx(hist) + "\n"; }, kv.first);
+        if (!ok) { out.ok = false; out.reported = true; out.key = "cross-representation-results/" + kv.first; out.what = "results differ between quaternion and Euler-angle form of the same state, component " + kv.first + " rel.err " + verif::fmtd(err); return; }
+    }
+}
 
 static Outcome runHistoryOnce(verif::Run& run, Fixture& F, const std::vector<Op>& ops, const std::vector<int>& hist, bool wantKey) {
     Outcome out;
     State s = F.base;
     std::string lastSetter = "none";
+    int at = -1;
     try {
-        for (int o : hist) { ops[o].f(F, s); if (ops[o].isSetter) lastSetter = ops[o].name.substr(0, ops[o].name.find('#')); }
+        for (int o : hist) { at = o; ops[o].f(F, s); if (ops[o].isSetter) lastSetter = ops[o].name.substr(0, ops[o].name.find('#')); }
     } catch (const std::exception& e) {
         // an operation refused by the library (e.g. a stage requirement): not a state we can reach; counted
         run.count("history-rejected-by-library");
+        if (F.variant >= 3) { run.count("rejected-at/" + ops[at].name); if (getenv("C16_DEBUG")) fprintf(stderr, "rejected at %s: %s\n", ops[at].name.c_str(), e.what()); }
         out.ok = true; out.key = "rejected";
         return out;
     }
-    if (wantKey) out.key64 = canonKey(F, s);
+    if (wantKey) out.key64 = shadowKey(ops, hist, canonKey(F, s));
     State c(s);                               // copy: keeps variables, drops cache above Instance
     // fresh reference: a new default State given the same values through the same public setters, in the same
     // order, with every realization and query of the history removed
     State f = F.base;
-    for (int o : hist) if (ops[o].isSetter) ops[o].f(F, f);
+    try { for (int o : hist) if (ops[o].isSetter) ops[o].f(F, f); }
+    catch (const std::exception& e) {
+        // a setter that the library accepts only on a realized State (stage precondition): the history cannot be reduced to its setters; counted
+        run.count("unspecified:setter-refused-without-the-realizations/" + lastSetter);
+        return out;
+    }
     // informational third reference: fresh State whose variables were copied raw (bypassing the setters)
-    State r = freshWithSameValues(F, s);
     std::vector<double> os, oc, of, orr;
     std::string exS, exC, exF;
-    try { os = observe(F, s); } catch (const std::exception& e) { exS = "threw"; }
+    gZdotUnwritten = false;
+    try { os = observe(F, s); } catch (const std::exception& e) { exS = "threw"; if (getenv("C16_DEBUG")) fprintf(stderr, "observe threw: %s\n", e.what()); }
+    const bool zdotUnwritten = gZdotUnwritten;
     try { oc = observe(F, c); } catch (const std::exception& e) { exC = "threw"; }
     try { of = observe(F, f); } catch (const std::exception& e) { exF = "threw"; }
-    try { orr = observe(F, r); if (exS.empty() && !sameBits(os, orr)) run.count("unspecified:raw-variable-copy-differs-after/" + lastSetter); } catch (const std::exception& e) { run.count("unspecified:raw-variable-copy-throws"); }
+    if (F.variant < 3 || hist.size() <= 2)      // informational only: skipped for the deeper histories of the added variants (cost)
+    try { State r = freshWithSameValues(F, s); orr = observe(F, r); if (exS.empty() && !sameBits(os, orr)) run.count("unspecified:raw-variable-copy-differs-after/" + lastSetter); } catch (const std::exception& e) { run.count("unspecified:raw-variable-copy-throws"); }
     run.transition(2);
     if (!exS.empty() || !exC.empty() || !exF.empty()) {
         if (exS == exC && exC == exF) { run.count("all-three-throw-at-realize"); return out; }
@@ -235,6 +703,17 @@ static Outcome runHistoryOnce(verif::Run& run, Fixture& F, const std::vector<Op>
         return out;
     }
     out.obsHash = verif::fnv1a(os.data(), os.size() * sizeof(double));
+    if (zdotUnwritten) {
+        // realize(Acceleration) left a zdot slot unwritten: its value is whatever the cache held before (uninitialised or from an earlier realization)
+        std::string who;
+        auto off = [&](const Force& f) { return !f.isEmptyHandle() && F.forces.isForceDisabled(s, f.getForceIndex()); };
+        if (off(F.thermo)) who += "Thermostat";
+        if (off(F.bushing)) who += std::string(who.empty() ? "" : "+") + "LinearBushing";
+        if (off(F.cspring)) who += std::string(who.empty() ? "" : "+") + "CableSpring";
+        out.ok = false; out.key = who.empty() ? "zdot-not-written/no-element-disabled" : "zdot-not-written-by-disabled-element/" + who;
+        out.what = "after realize(Acceleration) a zdot slot was never written (it still holds the harness's pre-realization fill): the derivative of that z is whatever the cache held before";
+        return out;
+    }
     // every variable value of the alphabet is finite, so every result must be finite too: a NaN/Inf can only come
     // from cache content that some earlier operation left behind (or failed to refresh)
     for (size_t i = 0; i < os.size(); ++i) if (!std::isfinite(os[i])) {
@@ -245,7 +724,7 @@ static Outcome runHistoryOnce(verif::Run& run, Fixture& F, const std::vector<Op>
     }
     int w1 = 0, w2 = 0;
     bool sf = sameBits(os, of, &w1), sc = sameBits(os, oc, &w2), cf = sameBits(oc, of);
-    if (sf && sc) return out;
+    if (sf && sc) { if (F.variant == 3) crossRepresentation(run, F, s, ops, hist, out); return out; }
     out.ok = false;
     std::vector<std::string> labels; { State t = F.base; observe(F, t, &labels); }
     int w = !sf ? w1 : w2;
@@ -261,7 +740,7 @@ static Outcome runHistoryOnce(verif::Run& run, Fixture& F, const std::vector<Op>
 // (that prefix is itself an enumerated history, so keys name the culprit, not whatever came last).
 static Outcome runHistory(verif::Run& run, Fixture& F, const std::vector<Op>& ops, const std::vector<int>& hist, bool wantKey) {
     Outcome o = runHistoryOnce(run, F, ops, hist, wantKey);
-    if (o.ok || o.key == "rejected") return o;
+    if (o.ok || o.key == "rejected" || o.reported) return o;
     for (size_t k = 1; k < hist.size(); ++k) {
         std::vector<int> pre(hist.begin(), hist.begin() + k);
         Outcome p = runHistoryOnce(run, F, ops, pre, false);
@@ -270,21 +749,49 @@ static Outcome runHistory(verif::Run& run, Fixture& F, const std::vector<Op>& op
     return o;
 }
 
-static std::string histStr(const std::vector<Op>& ops, const std::vector<int>& h) { std::string s; for (int o : h) s += ops[o].name + " ; "; return s; }
-static std::string histIdx(const std::vector<int>& h) { std::string s; for (size_t i = 0; i < h.size(); ++i) s += (i ? "," : "") + std::to_string(h[i]); return s; }
+std::string histStr(const std::vector<Op>& ops, const std::vector<int>& h) { std::string s; for (int o : h) s += ops[o].name + " ; "; return s; }
+std::string histIdx(const std::vector<int>& h) { std::string s; for (size_t i = 0; i < h.size(); ++i) s += (i ? "," : "") + std::to_string(h[i]); return s; }
 static std::vector<int> parseIdx(const std::string& s) { std::vector<int> v; std::stringstream ss(s); std::string t; while (std::getline(ss, t, ',')) if (!t.empty()) v.push_back(atoi(t.c_str())); return v; }
+
+// CablePath::realizeInstance writes debugging text to stdout on every call; forked workers do not need stdout (variant 5)
+static void silenceStdout() { static bool done = false; if (done) return; done = true; fflush(stdout); int fd = open("/dev/null", O_WRONLY); if (fd >= 0) { dup2(fd, 1); close(fd); } }
 
 int main(int argc, char** argv) {
     verif::Run run("C16", argc, argv);
+    const pid_t parentPid = getpid();
     run.setDeadline(300, 3000);
     const bool th = run.thorough();
-    auto plainDepthOf = [&](int variant) { return th ? (variant == 0 ? 4 : 3) : (variant == 0 ? 3 : 2); };
+    gSeedScale = 1.0 + (double)(((run.seed % 4) + 4) % 4) / 16.0;
+    const int dbgDepth = getenv("C16_DEPTH") ? atoi(getenv("C16_DEPTH")) : 0;       // debugging only
+    std::set<int> only; if (const char* e = getenv("C16_VARIANTS")) for (int v : parseIdx(e)) only.insert(v);   // debugging only
+    auto selected = [&](int v) { return only.empty() || only.count(v); };
+    auto plainDepthOf = [&](int variant) {
+        if (dbgDepth) return dbgDepth;
+        if (variant >= 3) return th ? 3 : kQuickDepthAdded[variant];
+        return th ? (variant == 0 ? 4 : 3) : (variant == 0 ? 3 : 2);
+    };
     const int plainDepth = plainDepthOf(0);
     const int bfsDepth = th ? 5 : 3;
-    const int nVariants = 3;
-    run.rule = "E2: a case = an operation history replayed on a fresh default State of a real system (3 bodies, 9 force elements with state-resident parameters, 1-2 constraints; 3 fixture variants); plain enumeration of ALL histories of depth <= d over the operation alphabet (no merging) plus BFS to a deeper bound with canonical-state merging (variable values, stages, per-cache-entry validity); after every history: observation vector at Acceleration bitwise equal to fresh-state and copied-state references. non-trivial = history contains at least one setter";
-    run.assumptions = {"parameter values from a 2-value alphabet per setter", "the fresh-state reference copies time,q,u,z and every discrete variable of every subsystem", "BFS merging trusts the canonical key; the plain enumeration does not"};
+    auto bfsDepthOf = [&](int variant) { return th ? (variant < 3 ? 5 : 4) : 3; };
+    // BFS order: quick = variant 0 only (as before); thorough = the added variants (depth 4) first, then variants 0-2 (depth 5)
+    std::vector<int> bfsOrder; if (th) { for (int v = 3; v < kNumVariants; ++v) bfsOrder.push_back(v); for (int v = 0; v < 3; ++v) bfsOrder.push_back(v); } else bfsOrder.push_back(0);
+    if (run.hasFlag("--no-bfs")) bfsOrder.clear();
+    const int nVariants = kNumVariants;
+    run.rule = "E2: a case = an operation history replayed on a fresh default State of a real system; 10 fixture variants, each with its own sub-alphabet (only the operations of the elements it contains): "
+               "0-2 Pin/Slider/Pin with 9 force elements, ConstantSpeed, optional Rod (65/65/67 ops); 3 Ball+Pin+Free with the Euler-angle/quaternion option, convertToEulerAngles/convertToQuaternions, normalizeQuaternions (44 ops); "
+               "4 z writers, per-stage event witnesses, Force::Thermostat, custom element, LinearBushing z (49); 5 CablePath(via point)+CableSpring (35); 6 Ball/NoSlip1D/ConstantCoordinate/ConstantAcceleration/Rod parameters (50); "
+               "7 Motion::Steady/Sinusoid, locks, FunctionBased mobilizer (48); 8 SphereOnPlane/SphereOnSphere/LineOnLine contact-constraint parameters (46); 9 ExponentialSpringForce, CompliantContactSubsystem z, LinearBushing frames, DiscreteForces, Force::disable (45). "
+               "COMPLETE: plain enumeration (no merging) of ALL histories of depth <= 3 for variants 0 and 3-9 and depth <= 2 for variants 1-2 (quick); thorough: depth <= 4 for variant 0, <= 3 for all others. "
+               "PLUS BFS with canonical-state merging (variable values, stages, per-cache-entry validity, lock/enable flags, last operation per setter family): quick variant 0 to depth 3; thorough variants 3-9 to depth 4 and 0-2 to depth 5 (frontier cap 40000, a capped run is not called exhaustive). "
+               "After every history: observation vector at Acceleration (poses, velocities, accelerations, forces, reactions, energies, udot, zdot, qdot, qdotdot, multipliers, constraint errors, event witnesses by stage, per-element outputs) bitwise equal to "
+               "fresh-state and copied-state references; finite; every zdot slot written; variant 3 also: equal (1e-9) to the same State converted to the other orientation representation. non-trivial = history contains at least one setter";
+    run.assumptions = {"parameter values from a 2-value alphabet per setter (variants 3-9: scaled by 1+(VERIF_SEED mod 4)/16)",
+                       "the fresh-state reference replays the history's setters (incl. Model-stage changes followed by realizeModel) in order with every realization and query removed; a raw variable-by-variable copy is evaluated too but only counted",
+                       "BFS merging trusts the canonical key; the plain enumeration does not",
+                       "added variants: the zdot cache is filled with a sentinel before each realization passing Dynamics, so an unwritten slot is reported deterministically instead of by its accidental content",
+                       "CablePath wrapping surfaces are excluded: their path solver continues from the previous solution by documented design, so their results (and the only built-in event witness) are history dependent"};
 
+    if (run.hasFlag("--list-ops")) { for (int v = 0; v < nVariants; ++v) { auto ops = makeOps(v); for (size_t i = 0; i < ops.size(); ++i) printf("variant %d op %zu %s %s\n", v, i, ops[i].isSetter ? "setter" : "query ", ops[i].name.c_str()); } return 0; }
     if (run.replaying()) {
         int variant = atoi(run.replayField("variant").c_str());
         Fixture F(variant); auto ops = makeOps(variant);
@@ -302,10 +809,12 @@ int main(int argc, char** argv) {
         for (int v = 0; v < nVariants; ++v) nops[v] = (int)makeOps(v).size();
         struct Unit { int variant, a, b; };
         std::vector<Unit> units;
-        for (int v = 0; v < nVariants; ++v) for (int a = 0; a < nops[v]; ++a) for (int b = 0; b < nops[v]; ++b) units.push_back({v, a, b});
+        for (int v = 0; v < nVariants; ++v) if (selected(v)) for (int a = 0; a < nops[v]; ++a) for (int b = 0; b < nops[v]; ++b) units.push_back({v, a, b});
+        for (int v = 0; v < nVariants; ++v) run.count("alphabet-size-variant-" + std::to_string(v), nops[v]);
         run.parallel("plain", (int64_t)units.size(), [&](int64_t i) {
             Unit u = units[i];
             static int builtVariant = -1; static std::unique_ptr<Fixture> F; static std::vector<Op> ops;
+            if (u.variant == 5 && getpid() != parentPid) silenceStdout();
             if (builtVariant != u.variant) { F.reset(new Fixture(u.variant)); ops = makeOps(u.variant); builtVariant = u.variant; }
             const int n = (int)ops.size();
             std::vector<std::vector<int>> hs;
@@ -321,7 +830,7 @@ int main(int argc, char** argv) {
                 run.evaluationDistinct(nontrivial);
                 Outcome o = runHistory(run, *F, ops, h, false);
                 run.outcome(o.obsHash);
-                if (!o.ok) run.violation(o.key, "variant " + std::to_string(u.variant) + " history [" + histStr(ops, h) + "]: " + o.what,
+                if (!o.ok && !o.reported) run.violation(o.key, "variant " + std::to_string(u.variant) + " history [" + histStr(ops, h) + "]: " + o.what,
                                          "section=plain\nitem=" + std::to_string(i) + "\nvariant=" + std::to_string(u.variant) + "\nhistory=" + histIdx(h) + "\n");
             }
             if (i % 977 == 0 && !hs.empty()) run.sample("variant " + std::to_string(u.variant) + ": " + histStr(ops, hs.back()));
@@ -330,17 +839,24 @@ int main(int argc, char** argv) {
 
     // ---- BFS with canonical-state merging, level-synchronous, variant 0 (thorough: all variants)
     int64_t bfsStates = 0, bfsTransitions = 0;
-    for (int variant = 0; variant < (run.hasFlag("--no-bfs") ? 0 : (th ? nVariants : 1)); ++variant) {
+    for (int variant : bfsOrder) {
+        if (!selected(variant)) continue;
+        const int bfsDepth = bfsDepthOf(variant);
         auto ops = makeOps(variant);
         const int n = (int)ops.size();
         std::set<uint64_t> seen;
         std::vector<std::vector<int>> frontier = {{}};
-        { Fixture F(variant); State s = F.base; seen.insert(canonKey(F, s)); }
+        {   // (variant 5: the cable code prints while the State is built; keep the parent's stdout clean)
+            fflush(stdout); int saved = variant == 5 ? dup(1) : -1; if (saved >= 0) { int fd = open("/dev/null", O_WRONLY); dup2(fd, 1); close(fd); }
+            { Fixture F(variant); State s = F.base; seen.insert(shadowKey(ops, {}, canonKey(F, s))); }
+            if (saved >= 0) { fflush(stdout); std::cout.flush(); dup2(saved, 1); close(saved); }
+        }
         for (int depth = 1; depth <= bfsDepth && !frontier.empty(); ++depth) {
             if (run.expired()) break;
             std::string prefix = run.buildDir + "/tmp/C16.bfs." + std::to_string(getpid()) + ".";
             run.parallel("bfs-v" + std::to_string(variant) + "-d" + std::to_string(depth), (int64_t)frontier.size(), [&](int64_t i) {
                 static int builtVariant = -1; static std::unique_ptr<Fixture> F;
+                if (variant == 5 && getpid() != parentPid) silenceStdout();
                 if (builtVariant != variant) { F.reset(new Fixture(variant)); builtVariant = variant; }
                 static FILE* out = nullptr; static std::string outName;
                 std::string want = prefix + std::to_string(getpid());
@@ -350,7 +866,7 @@ int main(int argc, char** argv) {
                     bool nontrivial = false; for (int x : h) nontrivial |= ops[x].isSetter;
                     run.evaluationDistinct(nontrivial);
                     Outcome oc = runHistory(run, *F, ops, h, true);
-                    if (!oc.ok) run.violation(oc.key, "variant " + std::to_string(variant) + " history [" + histStr(ops, h) + "]: " + oc.what,
+                    if (!oc.ok && !oc.reported) run.violation(oc.key, "variant " + std::to_string(variant) + " history [" + histStr(ops, h) + "]: " + oc.what,
                                               "section=bfs\nvariant=" + std::to_string(variant) + "\nhistory=" + histIdx(h) + "\n");
                     if (oc.key != "rejected") { fprintf(out, "%llx %s\n", (unsigned long long)oc.key64, histIdx(h).c_str()); }
                 }
